@@ -422,6 +422,190 @@ fn enumerated(thorough: bool) -> Vec<CancelCase> {
     out
 }
 
+/// Overlap phase: the next call is issued while a file operation of the dropped future is still queued.
+/// The runtime's blocking pool has one thread, which the harness occupies with a gate, so the order of pearl's
+/// file operations is owned by the check: gate, victim's queued operation, next call's operation.
+#[derive(Clone, Debug, Serialize, Deserialize)]
+pub struct OverlapCase {
+    pub cfg: Cfg,
+    /// acknowledged writes before the rounds (value lengths)
+    pub pre: Vec<u32>,
+    /// per round: (victim value length, next value length, hold the gate while dropping, extra polls of the victim when not gated)
+    pub rounds: Vec<(u32, u32, bool, u8)>,
+    pub reopen_lazy: bool,
+}
+
+pub fn overlap_strategy() -> BoxedStrategy<OverlapCase> {
+    let vlen = prop_oneof![4 => 0u32..300, 2 => Just(5000u32), 2 => Just(100_000u32), 1 => Just(200_000u32)];
+    let cfg = (cfg_strategy(&[8, 33], true), prop::bool::weighted(0.6)).prop_map(|(mut c, current_thread)| {
+        c.allow_dup = true;
+        c.blocking_threads = Some(1);
+        if current_thread {
+            c.rt_workers = 0;
+        }
+        c
+    });
+    (cfg, prop::collection::vec(vlen.clone(), 1..4), prop::collection::vec((vlen.clone(), vlen, prop::bool::weighted(0.7), 0u8..4), 1..5), any::<bool>())
+        .prop_map(|(cfg, pre, rounds, reopen_lazy)| OverlapCase { cfg, pre, rounds, reopen_lazy })
+        .boxed()
+}
+
+pub fn run_overlap(c: &OverlapCase, dir: &Path, _findings: &Findings) -> Result<CaseOut, Failure> {
+    let rt = c.cfg.runtime();
+    let group = pearl::verif::inflight_group_for_this_thread();
+    let _ = std::fs::remove_dir_all(dir);
+    let keylen = c.cfg.keylen;
+    let res = rt.block_on(async {
+        let fail = |clause: &str, detail: String, step: usize| -> Result<CaseOut, Failure> { Err(Failure { clause: clause.into(), detail, step, op: "overlap".into() }) };
+        let s = match sut::open(&c.cfg, dir, false).await {
+            Ok(s) => s,
+            Err(e) => return fail("init/err", format!("{:#}", e), 0),
+        };
+        let mut labels: BTreeSet<String> = BTreeSet::new();
+        let mut stats = crate::interp::Stats::default();
+        // key index -> expected bytes of acknowledged writes; victims whose future was dropped: NotFound or exactly these bytes
+        let mut acked: Vec<(u8, Vec<u8>)> = vec![];
+        let mut dropped: Vec<(u8, Vec<u8>)> = vec![];
+        let mut next_key = 0u8;
+        let mut fresh = |vlen: u32| -> (u8, Vec<u8>) {
+            let k = next_key;
+            next_key += 1;
+            (k, value_bytes(k as usize + 1, vlen, 0))
+        };
+        for vlen in &c.pre {
+            let (k, val) = fresh(*vlen);
+            if let Err(e) = s.write(&key_bytes(keylen, k), Bytes::from(val.clone()), 1, None).await {
+                return fail("write/err", format!("{:#}", e), 0);
+            }
+            stats.writes += 1;
+            acked.push((k, val));
+        }
+        for (r, (vlen_v, vlen_n, gated, extra)) in c.rounds.iter().enumerate() {
+            stats.steps += 1;
+            let (kv, val_v) = fresh(*vlen_v);
+            let (kn, val_n) = fresh(*vlen_n);
+            let kvb = key_bytes(keylen, kv);
+            let knb = key_bytes(keylen, kn);
+            let gate = if *gated {
+                let (tx, rx) = std::sync::mpsc::channel::<()>();
+                let h = tokio::task::spawn_blocking(move || {
+                    let _ = rx.recv();
+                });
+                Some((tx, h))
+            } else {
+                None
+            };
+            // the victim: polled once (gated: its first file operation is now queued behind the gate), or a few more times
+            let mut victim = Box::pin(s.write(&kvb, Bytes::from(val_v.clone()), 1, None));
+            let mut done: Option<bool> = None;
+            let polls = if *gated { 1 } else { 1 + *extra as usize };
+            for i in 0..polls {
+                match futures::poll!(victim.as_mut()) {
+                    Poll::Ready(r) => {
+                        done = Some(r.is_ok());
+                        break;
+                    }
+                    Poll::Pending => {
+                        if !*gated && i + 1 < polls {
+                            tokio::time::sleep(Duration::from_micros(150)).await;
+                        }
+                    }
+                }
+            }
+            match done {
+                Some(true) => acked.push((kv, val_v.clone())),
+                Some(false) => return fail("write/err", "victim write failed without any fault".into(), r),
+                None => {
+                    dropped.push((kv, val_v.clone()));
+                    labels.insert("victim_dropped_pending".into());
+                }
+            }
+            drop(victim);
+            // the next call starts at once: no waiting for what the dropped future left in the pool
+            let mut next = Box::pin(s.write(&knb, Bytes::from(val_n.clone()), 1, None));
+            let early = futures::poll!(next.as_mut());
+            let in_flight_at_overlap = group.load(Ordering::SeqCst);
+            if let Some((tx, h)) = gate {
+                if done.is_none() && in_flight_at_overlap >= 2 {
+                    labels.insert("two_operations_queued_behind_gate".into());
+                }
+                let _ = tx.send(());
+                let _ = h.await;
+            }
+            let res = match early {
+                Poll::Ready(r) => r,
+                Poll::Pending => next.await,
+            };
+            if let Err(e) = res {
+                return fail("cancel/overlap/later-op-failed", format!("write after a dropped write failed: {:#}", e), r);
+            }
+            stats.writes += 2;
+            acked.push((kn, val_n));
+            let t0 = std::time::Instant::now();
+            while group.load(Ordering::SeqCst) > 0 && t0.elapsed() < Duration::from_secs(30) {
+                tokio::time::sleep(Duration::from_micros(300)).await;
+            }
+        }
+        let _ = wait_quiet(s.as_ref(), false, crate::interp::max_wait()).await;
+        // in the session: acknowledged data exact; a dropped write is absent or complete
+        let judge = |stage: &str, k: u8, want: &Vec<u8>, got: anyhow::Result<sut::RR<Vec<u8>>>, may_be_absent: bool| -> Result<(), Failure> {
+            match got {
+                Ok(sut::RR::Found(b)) if &b == want => Ok(()),
+                Ok(sut::RR::NotFound) if may_be_absent => Ok(()),
+                other => Err(Failure { clause: format!("cancel/overlap/{}/{}", stage, if may_be_absent { "dropped-write-half-applied" } else { "acknowledged-data-lost" }), detail: format!("key {} ({} bytes written): got {}", k, want.len(), match other { Ok(sut::RR::Found(b)) => format!("Found({} bytes, differing)", b.len()), Ok(o) => o.class().to_string(), Err(e) => format!("Err({:#})", e) }), step: 0, op: "overlap".into() }),
+            }
+        };
+        for (k, want) in &acked {
+            stats.queries += 1;
+            judge("session", *k, want, s.read(&key_bytes(keylen, *k)).await, false)?;
+        }
+        for (k, want) in &dropped {
+            stats.queries += 1;
+            judge("session", *k, want, s.read(&key_bytes(keylen, *k)).await, true)?;
+        }
+        if let Err(e) = s.close().await {
+            return fail("close/err", format!("{:#}", e), 0);
+        }
+        // every blob file parses completely
+        for (id, is_idx, p) in sut::list_files(dir) {
+            if is_idx {
+                let _ = std::fs::remove_file(&p);
+                continue;
+            }
+            match blobfmt::parse_blob_file(&p, keylen) {
+                Ok(parsed) if parsed.end == blobfmt::ParseEnd::Clean && parsed.records.iter().all(|r| r.data_crc_ok) => {}
+                Ok(parsed) => return fail("cancel/overlap/blob-does-not-parse", format!("blob {}: {} records, then {:?}", id, parsed.records.len(), parsed.end), 0),
+                Err(e) => return fail("harness/read", e.to_string(), 0),
+            }
+        }
+        // restart without index files: the scan must accept every blob, all acknowledged data is served
+        let s = match sut::open(&c.cfg, dir, c.reopen_lazy).await {
+            Ok(s) => s,
+            Err(e) => return fail("cancel/overlap/init-err", format!("{:#}", e), 0),
+        };
+        if s.corrupted_blobs_count() != 0 {
+            return fail("cancel/overlap/blob-quarantined-at-restart", format!("corrupted_blobs_count = {}", s.corrupted_blobs_count()), 0);
+        }
+        for (k, want) in &acked {
+            stats.queries += 1;
+            judge("restart", *k, want, s.read(&key_bytes(keylen, *k)).await, false)?;
+        }
+        for (k, want) in &dropped {
+            stats.queries += 1;
+            judge("restart", *k, want, s.read(&key_bytes(keylen, *k)).await, true)?;
+        }
+        let _ = s.close().await;
+        let nontrivial = labels.contains("two_operations_queued_behind_gate");
+        Ok(CaseOut { nontrivial, labels, stats, known_hits: BTreeSet::new(), weight: 1 })
+    });
+    drop(rt);
+    res
+}
+
+fn sample_overlap(c: &OverlapCase) -> Value {
+    json!({"cfg": format!("keylen={} rt_workers={} blocking_threads={:?}", c.cfg.keylen, c.cfg.rt_workers, c.cfg.blocking_threads), "pre": c.pre, "rounds(victim_len,next_len,gated,extra_polls)": c.rounds})
+}
+
 pub fn run(ctx: &RunCtx) -> PropResult {
     let mut report = Report::default();
     let findings = ctx.findings.clone();
@@ -431,10 +615,14 @@ pub fn run(ctx: &RunCtx) -> PropResult {
     run_generated(ctx, "cancel", ctx.tier.pick(4000, 50_000), cancel_strategy, runf, &sample, &mut report);
     let runf = |c: &CancelCase, d: &Path| run_cancel(c, d, &findings);
     run_enumerated(ctx, "cancel-k", enumerated(ctx.tier == Tier::Thorough), runf, &sample, &mut report);
+    let runf = |c: &OverlapCase, d: &Path| run_overlap(c, d, &findings);
+    run_replays::<OverlapCase, _>(ctx, "cancel-overlap", &ctx.verif_dir.join("replays").join("C14"), runf, &mut report);
+    let runf = |c: &OverlapCase, d: &Path| run_overlap(c, d, &findings);
+    run_generated(ctx, "cancel-overlap", ctx.tier.pick(1200, 12_000), overlap_strategy, runf, &sample_overlap, &mut report);
     PropResult {
         report,
         level: "fault_enumeration",
-        rule: "A generated history prefix (active blob fresh or reopened), then one victim call (write of 0-200 B / around 4 KiB / 5 000 B / 100 000 B with or without meta, delete with either only_if value over 0-3 closed blobs holding the key, try_close/create/restore_active_blob, fsyncdata) polled with a flag waker: it is re-polled only after its waker fired and dropped after k resumptions (k 0..13), on the current-thread runtime (every file operation is a suspension point) and the multi-thread runtime. The harness then waits for the blocking closures that future had submitted (per-thread H4 counter) and for the background queue. Oracle: all read/contains/read_all*/read_with answers for all keys equal the model with the victim applied, or the model with it not applied (one choice; a call that completed with Ok must be applied, with Err must not); generated later writes/deletes succeed and keep matching that world; a switch from not-applied to applied is accepted only at a restart; after the final restart (indexes kept or removed) corrupted_blobs_count is 0, every blob file parses completely with the harness parser and passes validate_blob. An enumerated phase runs every victim kind x every k x both runtimes x fresh/reopened active blob. Non-trivial = the future was dropped while pending after >=1 resumption. distinct = FNV hash of the serialized case.".into(),
+        rule: "A generated history prefix (active blob fresh or reopened), then one victim call (write of 0-200 B / around 4 KiB / 5 000 B / 100 000 B with or without meta, delete with either only_if value over 0-3 closed blobs holding the key, try_close/create/restore_active_blob, fsyncdata) polled with a flag waker: it is re-polled only after its waker fired and dropped after k resumptions (k 0..13), on the current-thread runtime (every file operation is a suspension point) and the multi-thread runtime. The harness then waits for the blocking closures that future had submitted (per-thread H4 counter) and for the background queue. Oracle: all read/contains/read_all*/read_with answers for all keys equal the model with the victim applied, or the model with it not applied (one choice; a call that completed with Ok must be applied, with Err must not); generated later writes/deletes succeed and keep matching that world; a switch from not-applied to applied is accepted only at a restart; after the final restart (indexes kept or removed) corrupted_blobs_count is 0, every blob file parses completely with the harness parser and passes validate_blob. An enumerated phase runs every victim kind x every k x both runtimes x fresh/reopened active blob. A third phase (cancel-overlap) removes that wait: the runtime's blocking pool has ONE thread which the harness occupies with a gate, a write is polled once (its file operation is queued behind the gate) and dropped, the next write is started at once (its operation queues behind the victim's), then the gate opens; 1-4 rounds with value sizes on both sides of the in-place / background thresholds, both runtimes, also un-gated with 1-4 polls. Oracle: every acknowledged write reads back exactly, a dropped write reads NotFound or exactly its bytes, in the session and after a restart without index files; every blob file parses completely (harness parser, data checksums) and nothing is quarantined. Non-trivial = the future was dropped while pending after >=1 resumption (cancel phases); two file operations were queued behind the gate at the overlap (cancel-overlap). distinct = FNV hash of the serialized case.".into(),
         assumptions: {
             let mut a = common_assumptions();
             a.push("suspension points are the ones the runtime produces: on the multi-thread runtime small file operations run in place and cannot be interrupted".into());
@@ -444,6 +632,10 @@ pub fn run(ctx: &RunCtx) -> PropResult {
 }
 
 pub fn replay_other(phase: &str, case: &Value, dir: &Path, findings: &Findings) -> Option<Result<CaseOut, Failure>> {
+    if phase == "cancel-overlap" {
+        let runf = |c: &OverlapCase, d: &Path| run_overlap(c, d, findings);
+        return serde_json::from_value::<OverlapCase>(case.clone()).ok().map(|c| guarded(&c, dir, &runf));
+    }
     if phase.starts_with("cancel") {
         let runf = |c: &CancelCase, d: &Path| run_cancel(c, d, findings);
         serde_json::from_value::<CancelCase>(case.clone()).ok().map(|c| guarded(&c, dir, &runf))
